@@ -26,9 +26,13 @@ CONSTANTS
   Modes = {"inline", "named"}
   EqTemplates = {}
   EqWrongs = {}
+  CallKinds <- Calls_none
+  MaxCalls = 0
 INVARIANT RegistryIndependent
 INVARIANT WrittenIsPhysical
 INVARIANT RefusedOnlyIfWrongDimension
+INVARIANT SolverHasNoMemory
+INVARIANT SolverRefusesExactlyWrongDimensions
 INVARIANT KTypeOK
 INVARIANT KEmit
 CHECK_DEADLOCK FALSE
